@@ -167,7 +167,9 @@ impl DhtStreamHandler {
             DhtMessage::FindNode { target, count } => {
                 let engine = self.dht_engine.read().await;
 
-                match engine.find_nodes(&target, count).await {
+                // Security: cap the peer-supplied count (same protocol cap as DhtCoreEngine::handle_request)
+                let capped_count = count.min(crate::dht::core_engine::MAX_FIND_NODE_COUNT);
+                match engine.find_nodes(&target, capped_count).await {
                     Ok(nodes) => {
                         debug!(target = ?target, count = nodes.len(), "DHT find_node completed");
                         Ok(DhtResponse::FindNodeReply {
